@@ -495,6 +495,11 @@ class Interp:
         m = self.world.binop_model('in', container, item, self)
         if m is not NotImplemented:
             return m.t if isinstance(m, SBool) else m
+        if type(container).__name__ == 'ObjVal':
+            if container.cls.name == 'FrozenDict' and '_d' in \
+                    container.fields:
+                # the Mapping mixin: membership is membership in the storage
+                return self.contains(container.fields['_d'], item)
         if isinstance(container, MList):
             container = container.seq
         if isinstance(container, SSeq):
@@ -712,6 +717,12 @@ class Interp:
         m = self.world.binop_model('slice', obj, (lo, hi), self)
         if m is not NotImplemented:
             return m
+        if isinstance(obj, SVal):
+            # a slice of an opaque value (bytes ...): uninterpreted
+            from . import models
+            return models.apply_uf('py.getslice', (
+                obj, SInt(l) if l is not None else None,
+                SInt(h) if h is not None else None), 'Val')
         raise Unsupported('slice of %r' % (obj,))
 
     def index(self, obj, idx, node=None):
@@ -719,6 +730,12 @@ class Interp:
             obj = obj.seq
         if isinstance(obj, dict):
             if S.is_sym(idx):
+                # the very key object the dict was built with
+                for k2, v2 in obj.items():
+                    if k2 is idx or (hasattr(k2, 't') and hasattr(idx, 't')
+                                     and z3.is_expr(k2.t) and z3.is_expr(
+                                         idx.t) and k2.t.eq(idx.t)):
+                        return v2
                 # symbolic key into a concrete dict: case split on the keys
                 for k2, v2 in obj.items():
                     if S.is_sym(k2):
@@ -856,6 +873,21 @@ class Interp:
                                   'Bucket'):
             return BoundMethod(obj, name)
         if isinstance(obj, ExcVal):
+            if name in ('start', 'end') and any(
+                    n.startswith('Unicode') for n in obj.cls.mro_names(
+                        self.world)):
+                # UnicodeError.start / .end: 0 <= start <= end
+                cache = obj.__dict__.setdefault('_attrs', {})
+                if not cache:
+                    a, b = TInt.fresh('exc.start'), TInt.fresh('exc.end')
+                    self.path.assume(z3.And(a.t >= 0, a.t <= b.t))
+                    cache['start'], cache['end'] = a, b
+                return cache[name]
+            if name in ('object', 'reason', 'encoding'):
+                cache = obj.__dict__.setdefault('_attrs2', {})
+                if name not in cache:
+                    cache[name] = TVal.fresh('exc.' + name)
+                return cache[name]
             return BoundMethod(obj, name)
         raise Unsupported('attribute .%s of %r' % (name, obj))
 
